@@ -20,6 +20,8 @@ import XotModel.Lemmas.FinvReach2
 import XotModel.Lemmas.FinvStable
 import XotModel.Lemmas.FinvValue7
 import XotModel.Lemmas.FinvComposite
+import XotModel.Lemmas.FinvEditHV
+import XotModel.Lemmas.FinvUnwrapSites
 import XotModel.Lemmas.FinvReads
 import XotModel.Lemmas.FinvPrefix
 import XotModel.Lemmas.FinvIdIndex
@@ -2521,5 +2523,116 @@ example : compWitness.replaceSites 3 11 = [2, 8, 2] ∧
 example : (compWitness.removeInsignificantWhitespace 0).value? 2 = some (.text ['x']) ∧
     ((compWitness.mapInsert .attributes 0 (.attribute 7 ['v'])).1.value? 2 = some (.text ['x'])) := by
   decide +kernel
+
+end XotModel.Props
+
+/-! # ================================================================================================
+    # ... AND THE CALLS THAT EXTEND NONE: element_wrap, map remove, map clear (branch wt-wrap04)
+    # ================================================================================================
+
+  `element_wrap`, map `remove` and map `clear` extend no text node (the wrapper and the entry nodes are not text, so
+  nothing is merged), but the `VStep` route cannot show it (`vstep_insertAfter` demands the site of the reference
+  node whatever the inserted node is; `vstep_remove` the previous sibling of the removed node).  Route taken
+  (Lemmas/FinvEditHV.lean): a predicate-valued containment lemma for the (handle, value) pairs under the one-site
+  edit `Forest.editAt` (`Forest.hvList_editAt_sub`: if the list function adds only pairs satisfying `P`, so does the
+  edit), then "every pair afterwards is an old pair, or carries the fresh handle" is read off the C05 specifications
+  (`specWrap`: `C05_pair_wrap`; `specMapRemove`: `C05_map_remove`) and off the map step of C11 (`clear`: the child
+  list of the element without the view's entries). -/
+
+namespace XotModel.Props
+open XotModel
+
+/-- ⟦C04_wrap_extended_texts⟧ An ACCEPTED `element_wrap(n, name)` extends no text node: every handle live before
+    and after has exactly its old value (the one new pair is the wrapper, handle `f.next`).  (A call refused by one
+    of the three guards returns the forest unchanged.) -/
+theorem C04_wrap_extended_texts (f : Forest) (hi : f.Inv) (n name x : Nat) (v v' : Value)
+    (hok : (f.elementWrap n name).2.1 = .ok)
+    (hv : f.value? x = some v) (hv' : (f.elementWrap n name).1.value? x = some v') : v' = v :=
+  Forest.elementWrap_value_exact hi n name hok hv hv'
+
+/-- ⟦C04_mapRemove_extended_texts⟧ Map `remove(key)` (attribute or namespace view), any arguments, any outcome:
+    every surviving handle has exactly its old value. -/
+theorem C04_mapRemove_extended_texts (f : Forest) (hi : f.Inv) (k : Forest.MapKind) (e key x : Nat) (v v' : Value)
+    (hv : f.value? x = some v) (hv' : (f.mapRemove k e key).1.value? x = some v') : v' = v :=
+  Forest.mapRemove_value_exact hi k e key hv hv'
+
+/-- ⟦C04_mapClear_extended_texts⟧ Map `clear()`, any arguments, any outcome: every surviving handle has exactly
+    its old value. -/
+theorem C04_mapClear_extended_texts (f : Forest) (hi : f.Inv) (k : Forest.MapKind) (e x : Nat) (v v' : Value)
+    (hv : f.value? x = some v) (hv' : (f.mapClear k e).1.value? x = some v') : v' = v :=
+  Forest.mapClear_value_exact hi k e hv hv'
+
+/-- The containment lemma the three rest on, as a statement of its own: an edit of one site (`s = none`: the list
+    of parentless trees) whose list function adds only pairs satisfying `P` adds only such pairs. -/
+theorem C04_editAt_pairs (P : Nat × Value → Prop) (f : Forest) (s : Option Nat) (g : List HTree → List HTree)
+    (hg : ∀ L, ∀ p ∈ hvList (g L), p ∈ hvList L ∨ P p) :
+    ∀ p ∈ hvList (f.editAt s g).roots, p ∈ hvList f.roots ∨ P p :=
+  Forest.hvList_editAt_sub P f s g hg
+
+/-- Non-vacuity on `<e xmlns:p=".." a=".." b="..">x y<u/>z</e>` (handles 0; 1; 2, 3; 4, 5; 6; 7; adjacent text
+    nodes `x`, `y`): wrapping `y` (between two text nodes and an element) is accepted and returns handle 8, `x`, `y`,
+    `z` keep their content; removing the attribute `b` (the node before the text `x`) and clearing either view leave
+    `x` as it is. -/
+def wrapWitness : Forest :=
+  { roots := [.node 0 (.element 2) [.node 1 (.namespace 3 4) [], .node 2 (.attribute 6 ['v']) [],
+        .node 3 (.attribute 7 ['w']) [], .node 4 (.text ['x']) [], .node 5 (.text ['y']) [],
+        .node 6 (.element 3) [], .node 7 (.text ['z']) []]],
+    next := 8, consolidation := true, everOff := true }
+example : wrapWitness.Inv := (Forest.inv_iff _).mp (by decide)
+example : (wrapWitness.elementWrap 5 3).2 = (.ok, 8) ∧
+    (wrapWitness.elementWrap 5 3).1.value? 4 = some (.text ['x']) ∧
+    (wrapWitness.elementWrap 5 3).1.value? 5 = some (.text ['y']) ∧
+    (wrapWitness.elementWrap 5 3).1.value? 7 = some (.text ['z']) ∧
+    (wrapWitness.elementWrap 5 3).1.parent? 5 = some 8 := by decide +kernel
+example : (wrapWitness.mapRemove .attributes 0 7).2 = .ok ∧
+    (wrapWitness.mapRemove .attributes 0 7).1.isLive 3 = false ∧
+    (wrapWitness.mapRemove .attributes 0 7).1.value? 4 = some (.text ['x']) ∧
+    (wrapWitness.mapClear .attributes 0).1.isLive 2 = false ∧
+    (wrapWitness.mapClear .attributes 0).1.value? 4 = some (.text ['x']) ∧
+    (wrapWitness.mapClear .namespaces 0).1.isLive 1 = false ∧
+    (wrapWitness.mapClear .namespaces 0).1.value? 2 = some (.attribute 6 ['v']) := by decide +kernel
+
+/-- ⟦C04_unwrapSites_simpl⟧ `unwrapSites` reads the node before the wrapper on an intermediate state (the previous
+    sibling of the wrapper's first child once the wrapper is spliced out); under the invariant that is the previous
+    sibling of the wrapper in the forest BEFORE the call (wrapper with or without a parent) ... -/
+theorem C04_unwrapSites_simpl (f : Forest) (hi : f.Inv) (n first : Nat) (hfc : f.firstChild n = some first) :
+    (f.removeElement n).prevSibling first = f.prevSibling n :=
+  Forest.removeElement_prevSibling_firstChild hi hfc
+
+/-- ... so the sites of `element_unwrap(n)` are: the previous sibling of `n` and the last child of `n`, both read
+    before the call. -/
+theorem C04_unwrapSites_eq (f : Forest) (hi : f.Inv) (n : Nat) :
+    f.unwrapSites n = (f.prevSibling n).toList ++ (f.lastChild n).toList :=
+  Forest.unwrapSites_simpl hi n
+
+/-- `C04_unwrap_extended_texts` without the intermediate state: a surviving handle that is neither the previous
+    sibling nor the last child of the wrapper has exactly its old value. -/
+theorem C04_unwrap_extended_texts_simpl (f : Forest) (hi : f.Inv) (n x : Nat) (v v' : Value)
+    (hv : f.value? x = some v) (hv' : (f.elementUnwrap n).1.value? x = some v')
+    (h1 : f.prevSibling n ≠ some x) (h2 : f.lastChild n ≠ some x) : v' = v := by
+  apply Forest.elementUnwrap_value_exact hi n hv hv'
+  rw [Forest.unwrapSites_simpl hi n]
+  intro hx
+  rcases List.mem_append.1 hx with h | h
+  · exact h1 (by simpa [Option.mem_toList] using h)
+  · exact h2 (by simpa [Option.mem_toList] using h)
+
+example : compWitness.firstChild 3 = some 4 ∧ (compWitness.removeElement 3).prevSibling 4 = some 2 ∧
+    compWitness.prevSibling 3 = some 2 ∧ compWitness.lastChild 3 = some 7 := by decide +kernel
+
+/-- ⟦C04_replaceSites_simpl⟧ The extra guard site of `replaceSites` (the previous sibling of `b`, listed once more when
+    the reference node of the `insert_after` is `b` itself) is empty under the invariant: with the subtree `a` taken out
+    the forest still has distinct handles (`Forest.W` of `f.dropSubtree a`), so no node is its own previous sibling.
+    `Forest.replaceSites0` is `replaceSites` with the plain `insertAfterSites`. -/
+theorem C04_replaceSites_simpl (f : Forest) (hi : f.Inv) (a b : Nat) : f.replaceSites a b = f.replaceSites0 a b :=
+  Forest.replaceSites_simpl hi a b
+
+/-- `C04_replace_extended_texts` over the shorter list. -/
+theorem C04_replace_extended_texts_simpl (f : Forest) (hi : f.Inv) (a b x : Nat) (v v' : Value)
+    (hv : f.value? x = some v) (hv' : (f.replace a b).1.value? x = some v')
+    (hx : x ∉ f.replaceSites0 a b) : v' = v :=
+  Forest.replace_value_exact hi a b hv hv' (by rw [Forest.replaceSites_simpl hi a b]; exact hx)
+
+example : compWitness.replaceSites0 3 11 = [2, 8, 2] ∧ compWitness.replaceSites0 10 11 = [9] := by decide +kernel
 
 end XotModel.Props
